@@ -261,8 +261,7 @@ func (p *prepared) concSeries(ss []MSeries, mechanism bool) map[string][]mpt {
 		lt := labelsText(p.k.concLabels(s.Lbls, ""))
 		for _, pt := range s.Pts {
 			den := float64(pt.Den)
-			// (the mechanism as coded divides bytes_over_time by the range in seconds as well)
-			if (isRate(p.mq.Fn) || (mechanism && p.mq.Fn == "bytes_over_time")) && p.mq.Agg != "count" {
+			if isRate(p.mq.Fn) && p.mq.Agg != "count" {
 				den *= float64(p.mq.Unit)
 			}
 			out[lt] = append(out[lt], mpt{ts: float64(baseSec) + float64(pt.T*p.mq.Unit), val: float64(pt.Num) * sc / den, opt: pt.Opt})
@@ -460,7 +459,8 @@ func exp2json(m map[string][]mpt) map[string][]string {
 	return out
 }
 
-// metricWhy names the structural trigger of a disagreement for metric queries (first rule that applies).
+// metricWhy names the structural trigger of a disagreement for metric queries (first rule that applies): the triggers of
+// the open findings first, then those of repaired defects (kept so that a regression shows up under its old signature).
 func metricWhy(k *Conc, c *ACase, mq *AMq) string {
 	q := &c.Q
 	hasParser, hasDrop, hasLbl, hasLf, hasUnwrap := false, false, false, false, false
@@ -478,18 +478,35 @@ func metricWhy(k *Conc, c *ACase, mq *AMq) string {
 			hasUnwrap = true
 		}
 	}
-	shortcut := (mq.Fn == "rate" || mq.Fn == "count_over_time") && mq.Range*mq.Unit >= 15 && !hasParser && !hasDrop && !hasLf && !hasUnwrap
+	// (the range must be a multiple of 15 s since the repair of shortcut15s:range-not-multiple-of-15s)
+	shortcut := (mq.Fn == "rate" || mq.Fn == "count_over_time") && mq.Range*mq.Unit >= 15 && (mq.Range*mq.Unit)%15 == 0 &&
+		!hasParser && !hasDrop && !hasLf && !hasUnwrap
+	wouldShortcut := (mq.Fn == "rate" || mq.Fn == "count_over_time") && mq.Range*mq.Unit >= 15 && !hasParser && !hasDrop && !hasLf && !hasUnwrap
+	// ---- open findings
+	if w := logOpenWhy(k, c); w != "" {
+		return w
+	}
+	if isUnwrapFn(mq.Fn) {
+		for _, e := range c.DB {
+			if e.Fld["n"] == "n0" {
+				return "zero-valued-point-dropped"
+			}
+		}
+	}
+	if mq.Step > mq.Range {
+		return "step-greater-than-range"
+	}
+	// ---- repaired defects
 	if hasUnwrap && !hasParser && !hasDrop {
 		return "unwrap:no-labels-stage-before"
 	}
-	if shortcut && hasLbl {
+	if wouldShortcut && hasLbl {
 		return "shortcut15s:label-filter-not-planned"
 	}
-	// the triggers of the log-query part (selector, line filters, label filters, extraction)
-	if w := devWhy(k, c); !strings.HasPrefix(w, "unattributed") && !(shortcut && strings.HasPrefix(w, "labelfilter:")) {
+	if w := logFixedWhy(k, c); w != "" && !(wouldShortcut && strings.HasPrefix(w, "labelfilter:")) {
 		return w
 	}
-	if shortcut && (mq.Range*mq.Unit)%15 != 0 {
+	if wouldShortcut && (mq.Range*mq.Unit)%15 != 0 {
 		return "shortcut15s:range-not-multiple-of-15s"
 	}
 	if mq.Fn == "bytes_over_time" {
@@ -507,14 +524,6 @@ func metricWhy(k *Conc, c *ACase, mq *AMq) string {
 				return "unwrap:non-numeric-counted-as-zero"
 			}
 		}
-		for _, e := range c.DB {
-			if e.Fld["n"] == "n0" {
-				return "zero-valued-point-dropped"
-			}
-		}
-	}
-	if mq.Step > mq.Range {
-		return "step-greater-than-range"
 	}
 	parts := []string{"fn=" + mq.Fn}
 	if mq.Agg != "" {
